@@ -8,7 +8,8 @@
    stream `mini`: line = `<fuel> <n> q₁ … qₙ main ||| <wire input>` with queries in prefix form
         id | c <wire value> | pipe a b | comma a b | iter | empty | arr q | param | call <f> a
         | error | try b | trycatch b h | index <wire key> | ite c a b | alt l r | var <x> | bind <x> src body
-        | reduce <x> src init upd | foreach <x> src init upd ext
+        | reduce <x> src init upd | foreach <x> src init upd ext | obj <n> e₁ … eₙ
+          with entries  e ::= kq k v  (key query)  |  kc <wire key> v  (constant key)
      answer: `<instructions of compileProg, scope ids and registers renumbered by first
      appearance> ||| <outputs of the mini VM> END` (or `ERR msg s<hex>`), `?…` when not covered. -/
 import Gojq.Model.Stack
@@ -79,6 +80,7 @@ instance : IterMsg where
   msg v := errMsgV (Gojq.Err.builtin "iterator" [v])
   index v k := match Gojq.funcIndex2 v k with | .ok w => some w | .error _ => none
   indexMsg v k := match Gojq.funcIndex2 v k with | .ok _ => .null | .error e => errMsgV e
+  keyMsg k := errMsgV (Gojq.Err.builtin "objectKeyNotString" [k])
 
 partial def mentionsUnmodelled : V → Bool
   | .str s => s == unmodelledMsg
@@ -86,6 +88,7 @@ partial def mentionsUnmodelled : V → Bool
   | .obj kvs => kvs.any fun (_, x) => mentionsUnmodelled x
   | _ => false
 
+mutual
 partial def pQ : List String → Option (Q × List String)
   | "id" :: r => some (.id, r)
   | "iter" :: r => some (.iter, r)
@@ -109,7 +112,19 @@ partial def pQ : List String → Option (Q × List String)
   | "foreach" :: x :: r => do
     let x ← x.toNat?; let (a, r) ← pQ r; let (b, r) ← pQ r; let (c, r) ← pQ r; let (d, r) ← pQ r
     pure (.foreach x a b c d, r)
+  | "obj" :: n :: r => do
+    let n ← n.toNat?
+    let (sp, r) ← pSpine n .objStart r
+    pure (.obj sp, r)
   | _ => none
+
+/-- `n` more entries `k v` appended to the spine -/
+partial def pSpine : Nat → Q → List String → Option (Q × List String)
+  | 0, sp, r => some (sp, r)
+  | n+1, sp, "kq" :: r => do let (k, r) ← pQ r; let (v, r) ← pQ r; pSpine n (.objSnoc sp k v) r
+  | n+1, sp, "kc" :: r => do let (key, r) ← parseVal r; let (v, r) ← pQ r; pSpine n (.objSnocC sp key v) r
+  | _+1, _, _ => none
+end
 
 partial def pQs : Nat → List String → Option (List Q × List String)
   | 0, r => some ([], r)
@@ -164,6 +179,7 @@ def showInstr (r : Ren) : Instr → Ren × String
   | .index k => (r, "index " ++ toWire k)
   | .expbegin => (r, "expbegin")
   | .expend => (r, "expend")
+  | .object n => (r, s!"object {n}")
 
 def showCode (code : Code) : String :=
   let (_, out) := code.foldl (fun (acc : Ren × List String) i =>
@@ -190,6 +206,11 @@ def showOutcome : Outcome → String
   | .finished outs (some (.plain (.user v))) =>
     if outs.any mentionsUnmodelled || mentionsUnmodelled v then "?error message not modelled"
     else showOuts outs ++ "ERR value " ++ toWire v
+  | .finished outs (some (.plain (.keyNotStr k))) =>
+    match (Gojq.Err.builtin "objectKeyNotString" [k]).message with
+    | some m => if outs.any mentionsUnmodelled || mentionsUnmodelled k then "?error message not modelled"
+                else showOuts outs ++ "ERR msg s" ++ bytesToHex m
+    | none => "?error message not modelled"
   | .finished _ (some (.plain .noParam)) => "?parameter used outside a function"
   | .finished _ (some (.plain (.noVar _))) => "?unbound variable"
   | .finished outs (some (.tryEnd _)) => showOuts outs ++ "STUCK tryEndError escaped"
